@@ -205,7 +205,12 @@ pub struct SimSink<'p> {
     zero_forever: bool,
     interrupted_left: u8,
     transient_seen: bool,
+    /// a writer that keeps calling a sink which no longer accepts anything never terminates;
+    /// beyond this many calls the sink panics with CALL_BUDGET_MARK (turned into a verdict)
+    pub call_budget: u64,
 }
+
+pub const CALL_BUDGET_MARK: &str = "PGSIM-C15-SINK-CALL-BUDGET-EXCEEDED";
 
 impl<'p> SimSink<'p> {
     pub fn new(plan: &'p SinkPlan) -> Self {
@@ -220,6 +225,7 @@ impl<'p> SimSink<'p> {
             zero_forever: false,
             interrupted_left: 0,
             transient_seen: false,
+            call_budget: u64::MAX,
         }
     }
 
@@ -234,6 +240,9 @@ impl<'p> SimSink<'p> {
     fn decide(&mut self, len: usize) -> io::Result<usize> {
         let idx = self.calls;
         self.calls += 1;
+        if self.calls > self.call_budget {
+            panic!("{}", CALL_BUDGET_MARK);
+        }
         if self.transient_seen {
             self.fired.calls_after_transient += 1;
         }
